@@ -70,12 +70,16 @@ cdef class QueryScheduler:
     cdef public dict _next_scheduled_for_alias
     cdef public list _query_heap
     cdef object _next_run
+    cdef double _next_run_not_before_millis
     cdef double _clock_resolution_millis
     cdef object _question_type
 
     cdef void _schedule_ptr_refresh(self, DNSPointer pointer, double expire_time_millis, double refresh_time_millis)
 
     cdef void _schedule_ptr_query(self, _ScheduledPTRQuery scheduled_query)
+
+    @cython.locals(when=double)
+    cdef void _wake_up_earlier_if_needed(self, double when_millis)
 
     @cython.locals(scheduled=_ScheduledPTRQuery)
     cpdef void cancel_ptr_refresh(self, DNSPointer pointer)
@@ -88,7 +92,7 @@ cdef class QueryScheduler:
 
     cpdef void _process_startup_queries(self)
 
-    @cython.locals(query=_ScheduledPTRQuery, next_scheduled=_ScheduledPTRQuery, next_when=double)
+    @cython.locals(query=_ScheduledPTRQuery, next_scheduled=_ScheduledPTRQuery, rescue=_ScheduledPTRQuery, next_when=double)
     cpdef void _process_ready_types(self)
 
     cpdef void async_send_ready_queries(self, bint first_request, double now_millis, set ready_types)
